@@ -80,6 +80,9 @@ func checkC05(c *Ctx) {
 	// delivered "once, in sending order": concurrent sends to one session must not interleave on its stream
 	streamWriteLocked(c, "R-stream-locked", true)
 	c.R.Min("R-stream-locked", 2)
+	// "exactly the addressed session": a per-session goroutine must work on its own iteration's session
+	c05LoopCapture(c, "R-loop-capture")
+	c05PendingKey(c)
 }
 
 // ---------------------------------------------------------------- R-route
@@ -736,4 +739,201 @@ func c05Pending(c *Ctx) {
 	}
 	c.R.Min("R-pending-pair", 5)
 	_ = n
+}
+
+// ---------------------------------------------------------------- R-loop-capture
+func c05LoopCapture(c *Ctx, rule string) {
+	var fns []*ssa.Function
+	for _, fn := range c.P.LibFns {
+		fns = append(fns, fn)
+	}
+	caps, nGo := loopVarCaptures(c, fns)
+	for _, lc := range caps {
+		c.R.Violate(rule, sprintf("goroutine in a loop of %s shares the iteration variable %s", fname(lc.fn), lc.v.Comment), c.Pos(lc.goAt.Pos()),
+			sprintf("%s starts a goroutine per iteration whose closure captures the loop variable %q by reference; the module's language version shares one variable across iterations, so the goroutines act on whichever element the loop has reached (several on the same one, none on the others) and race with the loop", fname(lc.fn), lc.v.Comment))
+	}
+	c.R.Hold(rule, "goroutines started inside loops", "", sprintf("%d go statements inside loops examined; none captures its loop's iteration variable by reference", nGo-len(caps)))
+}
+
+// ---------------------------------------------------------------- R-pending-key
+// The key under which a server registers a pending server-to-client request must be unique among all requests that
+// share the table: it must come from a counter that lives in the same object as the table (one counter per table). A
+// per-session counter with a table shared by all sessions makes two sessions register the same key; the second
+// registration overwrites the first and the first session's answer is lost.
+func c05PendingKey(c *Ctx) {
+	pend := pendingInserts(c, true)
+	var tables []string
+	for t := range pend {
+		tables = append(tables, t)
+	}
+	sort.Strings(tables)
+	n := 0
+	for _, tbl := range tables {
+		for _, mu := range pend[tbl] {
+			f, _, ok := ir.LoadedField(mu.Map)
+			if !ok || f.Struct == nil {
+				continue
+			}
+			owner := ir.TypeKey(f.Struct)
+			owners := map[string]bool{}
+			counterOwners(c, mu.Parent(), mu.Key, 0, map[ssa.Value]bool{}, owners)
+			if len(owners) == 0 {
+				continue // the key is not generated by the library (caller supplied)
+			}
+			n++
+			var foreign []string
+			for o := range owners {
+				if o != owner {
+					foreign = append(foreign, o)
+				}
+			}
+			sort.Strings(foreign)
+			c.R.Check(len(foreign) == 0, "R-pending-key", "key of "+tbl+" registered by "+fname(mu.Parent()), c.Pos(mu.Pos()),
+				"generated by a counter of "+owner+", the object that holds the table",
+				sprintf("%s registers pending requests in %s (one table per %s) under a key generated by a counter of %s: two of those can issue the same key, the later registration overwrites the earlier one and the earlier request never receives its answer", fname(mu.Parent()), tbl, owner, strings.Join(foreign, ", ")))
+		}
+	}
+	c.R.Min("R-pending-key", 3)
+	_ = n
+}
+
+// counterOwners collects the struct types holding the atomic counters a value is generated from.
+func counterOwners(c *Ctx, fn *ssa.Function, v ssa.Value, depth int, seen map[ssa.Value]bool, out map[string]bool) {
+	if v == nil || depth > 8 || seen[v] {
+		return
+	}
+	seen[v] = true
+	switch x := v.(type) {
+	case *ssa.Call:
+		n := ir.CallName(x)
+		if strings.Contains(n, "sync/atomic") && strings.HasSuffix(n, ".Add") && len(x.Call.Args) > 0 {
+			if f, _, ok := ir.FieldOf(x.Call.Args[0]); ok && f.Struct != nil {
+				out[ir.TypeKey(f.Struct)] = true
+			}
+			return
+		}
+		if n == "fmt.Sprintf" || n == "fmt.Sprint" {
+			for _, a := range x.Call.Args {
+				for _, e := range variadicElems(a) {
+					if e != nil {
+						counterOwners(c, fn, e, depth+1, seen, out)
+					}
+				}
+			}
+			return
+		}
+		sc := ir.StaticCallee(x)
+		if sc == nil || !c.P.IsLib(sc) {
+			return
+		}
+		// what the callee returns: its own counters, or something derived from its parameters
+		ir.EachInstr(sc, func(_ *ssa.BasicBlock, _ int, in ssa.Instruction) {
+			r, ok := in.(*ssa.Return)
+			if !ok {
+				return
+			}
+			for _, rv := range ir.Results(r) {
+				sub := map[ssa.Value]bool{}
+				counterOwners(c, sc, rv, depth+1, sub, out)
+				for pv := range sub {
+					if p, ok := pv.(*ssa.Parameter); ok {
+						for i, q := range sc.Params {
+							if q == p && i < len(x.Call.Args) {
+								counterOwners(c, fn, x.Call.Args[i], depth+1, seen, out)
+							}
+						}
+					}
+				}
+			}
+		})
+	case *ssa.Extract:
+		counterOwners(c, fn, x.Tuple, depth+1, seen, out)
+	case *ssa.Convert:
+		counterOwners(c, fn, x.X, depth+1, seen, out)
+	case *ssa.ChangeType:
+		counterOwners(c, fn, x.X, depth+1, seen, out)
+	case *ssa.MakeInterface:
+		counterOwners(c, fn, x.X, depth+1, seen, out)
+	case *ssa.TypeAssert:
+		counterOwners(c, fn, x.X, depth+1, seen, out)
+	case *ssa.BinOp:
+		counterOwners(c, fn, x.X, depth+1, seen, out)
+		counterOwners(c, fn, x.Y, depth+1, seen, out)
+	case *ssa.Phi:
+		for _, e := range x.Edges {
+			counterOwners(c, fn, e, depth+1, seen, out)
+		}
+	case *ssa.UnOp:
+		if fa, ok := x.X.(*ssa.FieldAddr); ok {
+			// a member of a message: whatever this function (or, for a parameter, its callers) stored there
+			fl, base, _ := ir.FieldOf(fa)
+			ir.EachInstr(fn, func(_ *ssa.BasicBlock, _ int, in ssa.Instruction) {
+				st, ok := in.(*ssa.Store)
+				if !ok {
+					return
+				}
+				sfa, ok := st.Addr.(*ssa.FieldAddr)
+				if !ok {
+					return
+				}
+				sf, sbase, _ := ir.FieldOf(sfa)
+				if sf.Name == fl.Name && sf.Struct == fl.Struct && (sbase == base || sameValue(sbase, base)) {
+					counterOwners(c, fn, st.Val, depth+1, seen, out)
+				}
+			})
+			if p, ok := base.(*ssa.Parameter); ok {
+				idx := -1
+				for i, q := range fn.Params {
+					if q == p {
+						idx = i
+					}
+				}
+				for _, e := range ir.Callers(c.G, fn) {
+					if e.Site == nil || !c.P.IsLib(e.Caller.Func) || idx < 0 || idx >= len(e.Site.Common().Args) {
+						continue
+					}
+					// the caller built the message: stores into the same member of what it passes
+					arg := e.Site.Common().Args[idx]
+					ir.EachInstr(e.Caller.Func, func(_ *ssa.BasicBlock, _ int, in ssa.Instruction) {
+						st, ok := in.(*ssa.Store)
+						if !ok {
+							return
+						}
+						sfa, ok := st.Addr.(*ssa.FieldAddr)
+						if !ok {
+							return
+						}
+						sf, sbase, _ := ir.FieldOf(sfa)
+						if sf.Name == fl.Name && sf.Struct == fl.Struct && (sbase == arg || sameValue(sbase, arg)) {
+							counterOwners(c, e.Caller.Func, st.Val, depth+1, seen, out)
+						}
+					})
+				}
+			}
+			return
+		}
+		if al, ok := x.X.(*ssa.Alloc); ok {
+			// a local captured by a closure: every value stored into the cell
+			for _, r := range *al.Referrers() {
+				if st, ok := r.(*ssa.Store); ok && st.Addr == ssa.Value(al) {
+					counterOwners(c, fn, st.Val, depth+1, seen, out)
+				}
+			}
+			return
+		}
+		counterOwners(c, fn, x.X, depth+1, seen, out)
+	case *ssa.Parameter:
+		idx := -1
+		for i, q := range fn.Params {
+			if q == x {
+				idx = i
+			}
+		}
+		for _, e := range ir.Callers(c.G, fn) {
+			if e.Site == nil || !c.P.IsLib(e.Caller.Func) || idx < 0 || idx >= len(e.Site.Common().Args) {
+				continue
+			}
+			counterOwners(c, e.Caller.Func, e.Site.Common().Args[idx], depth+1, seen, out)
+		}
+	}
 }
